@@ -1,0 +1,26 @@
+//go:build verif
+
+package getput
+
+// Machine-checked contracts, read by the govc verifier under /verif. Comment-only.
+// C12 (client side) and C01: the closure that handles one get reply offers a value to the caller only if it hashes to
+// the requested immutable target, or its key and salt hash to the target and its signature verifies; it must not
+// panic on any reply a remote node may send.
+
+//@ func (*dht.Server).Get
+//@   trusted
+//@ func (dht.QueryResult).ToError
+//@   trusted
+//@ func (dht.QueryResult).TraversalQueryResult
+//@   trusted
+//@ func dht.NewAddr
+//@   trusted
+//@ func (dht/krpc.NodeAddr).UDP
+//@   trusted
+
+//@ func dht/exts/getput.startGetTraversal$1
+//@   requires nonnil: s != nil && ctx != nil
+//@   modifies *
+//@   callsite crypto/sha1.Sum hashes-the-value-or-key-and-salt: $data == r.V || bstr($data) == scat(abytes(r.K), bstr(salt))
+//@   callsite dht/bep44.Verify checks-this-reply: bstr($k) == abytes(r.K) && $salt == salt && r.Seq != nil && $seq == *r.Seq && $bv == r.V && bstr($sig) == abytes(r.Sig)
+//@   callsite select-send:vChan only-values-that-verify: $0.V == r.V && recorded("sha1") == target && ((!$0.Mutable && count("call:crypto/sha1.Sum") == 1) || ($0.Mutable && count("call:crypto/sha1.Sum") == 2 && count("call:dht/bep44.Verify") == 1 && recorded("verified") && r.Seq != nil && $0.Seq == *r.Seq))
